@@ -510,6 +510,20 @@ func (w *world) recoverCheck(h History, pruning bool, im crashx.Image, admissibl
 		}
 		if got := w.nodeOf(bc.CurrentBlock().Hash()); got != w.target {
 			v = append(v, verdict{"refeed-diverges", fmt.Sprintf("after re-importing every block the head is node %d, a crash-free run ends at node %d", got, w.target)})
+		} else if len(v) == 0 {
+			// "converges to the same head as a crash-free run": the canonical chain that ends there is as
+			// retrievable as after a crash-free run (number index, receipts, total difficulty of every block)
+			for b := bc.CurrentBlock(); b != nil && b.NumberU64() > 0 && len(v) == 0; b = bc.GetBlock(b.ParentHash(), b.NumberU64()-1) {
+				bh, n := b.Hash(), b.NumberU64()
+				switch {
+				case core.GetCanonicalHash(db, n) != bh:
+					v = append(v, verdict{"refeed-incomplete", fmt.Sprintf("after re-importing every block, height %d does not map to the head's ancestor", n)})
+				case core.GetBlockReceipts(db, bh, n) == nil:
+					v = append(v, verdict{"refeed-incomplete", fmt.Sprintf("after re-importing every block, the receipts of canonical block #%d (node %d) are not retrievable", n, w.nodeOf(bh))})
+				case bc.GetTd(bh, n) == nil:
+					v = append(v, verdict{"refeed-incomplete", fmt.Sprintf("after re-importing every block, canonical block #%d has no total difficulty", n)})
+				}
+			}
 		}
 	}()
 	return v
